@@ -40,6 +40,45 @@ CLAIMED = {
             "driver (bit-exact at slack 0) and checked directly by the spend-back experiment of the property's quantifier.",
             "Trusted: Lean kernel + Mathlib; number of iterations of the double-precision loop is observed (>= 52 or exact "
             "root), not proved; two rounding regions are listed known findings.", "§6 C18"),
+    "C10": ("Lean 4 proof: clip helpers in bounds / identity on the domain / idempotent for the function as coded (any linear "
+            "order) + exact helper correspondence and seeded end-to-end equality f(D) == f(clip D)",
+            "Machine-checked: for the whole clip_to_bounds as coded (exact-equality fast path + per-feature path) and the 1-D "
+            "entry the tools use: output in [lower, upper] in every coordinate, identity on in-domain data, idempotent — for "
+            "ANY linear order, hence for non-NaN doubles; fast path = per-feature path when taken; over R: clip_to_norm rows "
+            "have norm <= c, identity inside the ball, idempotent; any computation that starts with the clip gives the same "
+            "result on D and clip(D). Tied to the code by exact comparison of the helpers' outputs with the driver on "
+            "generated arrays/bounds (nearly-equal per-feature bounds, zero width, inf, NaN rows) and checked directly: the "
+            "three helper laws on the implementation, and bit-identical seeded results of every tool and bounds-/norm-domain "
+            "model on D and on an independently clipped D.",
+            "Trusted: Lean kernel + Mathlib; hand model tied by sampled correspondence; numpy's clip/norm; float norm "
+            "rounding (1e-12) observed, not proved; histogram drops (does not clip) out-of-range samples.", "§6 C10"),
+    "C12": ("Lean 4 proof: range/typing/termination theorems for truncate, fold as coded (modulo step + loop), rejection "
+            "loops, selection, degenerate parameters + scripted-uniform correspondence with hang detection",
+            "Machine-checked: truncate in bounds and identity on the domain (any linear order); the coded fold lands in "
+            "[lower, upper] after at most 2 reflections for lower <= upper, zero-width domain returns the point (over R); "
+            "rejection loops return the first in-range draw of the batch (any carrier); selection returns an index of the "
+            "candidate list with u < cum[i] (never a zero-probability candidate), categorical/binary/permute-and-flip "
+            "return members of their domain; geometric family returns integers inside the bounds; redraw loop stops; "
+            "degenerate parameters (sensitivity 0 / scale 0) give the input mapped into the domain for every bounded "
+            "mechanism incl. Snapping; Snapping's final clamp. Tied to the code by running randomise of every bounded "
+            "mechanism under scripted uniforms (extremes 0, 1-2^-53, 1/2, break-point neighbours; zero-width, narrow, "
+            "infinite domains) against the driver, and checked directly (range, type, no RecursionError/OverflowError, hangs "
+            "observed through time-outs).",
+            "Trusted: Lean kernel + Mathlib; epsilon = inf is not expressible over R (covered by correspondence); that the "
+            "fold on doubles stays in range, almost-sure termination of rejection loops and Bingham's unit norm on doubles "
+            "are observed, not proved; _find_scale and Bingham not modelled.", "§6 C12"),
+    "C15": ("Lean 4 proof: schedule independence of the seed-before-parallel discipline, partition of the row subsets + "
+            "repetition / fresh-interpreter / n_jobs experiments",
+            "Machine-checked: for every number of tasks, generator, task behaviour and complete schedule the indexed result "
+            "list equals the sequential one when seeds are drawn before the parallel section and each task owns its "
+            "generator (forest and, as repaired, LogisticRegression); contrast models (shared generator; copied generator) are "
+            "proved schedule-/n_jobs-dependent, so the theorem is about the discipline; the row subsets are disjoint (any "
+            "carrier) and partition the rows (over R). PARTIAL: bit-reproducibility, seed sensitivity, n_jobs independence on "
+            "the real thread/process pools and the tree-index range on doubles are validated on every run (79 entry points: "
+            "in-process and fresh-interpreter repetition, different seeds, n_jobs in {1,2,4,8}, scrambled completion order, "
+            "interposition confirming seeds are drawn before any task starts), not proved.",
+            "Trusted: Lean kernel + Mathlib; MT19937 determinism and seed sensitivity; joblib's ordered collection and absence "
+            "of shared mutable state in sklearn/numpy; the child-interpreter shim.", "§6 C15"),
     "C16": ("Lean 4 proof: refinement of the _default/old_default machine to a stack for every well-bracketed program + "
             "program-level correspondence with real `with` blocks",
             "Machine-checked (core Lean, no Mathlib): the faithful machine (class attribute _default, per-instance "
